@@ -32,6 +32,13 @@ inductive Err where
   | fuel
 deriving DecidableEq, Repr
 
+/-- equality of outcomes is decidable (used by the concrete `example`s) -/
+instance decEqExcept {ε α : Type} [DecidableEq ε] [DecidableEq α] : DecidableEq (Except ε α)
+  | .ok a, .ok b => if h : a = b then isTrue (by rw [h]) else isFalse (by intro h'; cases h'; exact h rfl)
+  | .error a, .error b => if h : a = b then isTrue (by rw [h]) else isFalse (by intro h'; cases h'; exact h rfl)
+  | .ok _, .error _ => isFalse (by intro h; cases h)
+  | .error _, .ok _ => isFalse (by intro h; cases h)
+
 /-! ## `StreamReader` (lib.py) -/
 
 /-- `StreamReader`: the iterator still to be consumed and the buffer -/
